@@ -73,7 +73,7 @@ TConfig ==
 Digits(i, base, len) ==
   [p \in 1..len |-> (i \div FoldLeft(LAMBDA a, b : a * base, 1, [x \in 1..(len - p) |-> x])) % base]
 
-SeqOf(r) ==
+RecSeq(r) ==
   IF cfg.mode = "enum" THEN [p \in 1..cfg.len |-> cfg.alpha[r.d[p] + 1]] ELSE r.s
 
 \* outcome of one run: violated clauses, deviation names, statistics
@@ -102,7 +102,7 @@ TSeq ==
   /\ cfg.mode = "enum" => Rec.d = Digits(idx, Len(cfg.alpha), cfg.len)
   /\ Len(Rec.runs) = Len(cfg.bases)
   /\ LET G == GridOf(cfg)
-         seq == SeqOf(Rec)
+         seq == RecSeq(Rec)
          nb == Len(cfg.bases)
          out == [b \in 1..nb |-> RunOutcome(G, cfg.bases[b], seq, Rec.runs[b].ids, Rec.runs[b].sz)]
          \* translation: compare every run with the first one that has the same soft-equality relation
@@ -123,7 +123,8 @@ TSeq ==
            !.near = @ + Cardinality({n \in 1..ns : grew(n) /\ r1.ids[n] # SizeBefore(r1.sz, n)}),
            !.unique = @ + Cardinality({n \in 1..ns : grew(n) /\ r1.ids[n] = SizeBefore(r1.sz, n)}),
            !.choice = @ + Cardinality({n \in 1..ns : ChoiceMatters(G, B1, seq, r1.ids, n)}),
-           !.demoted = @ + Cardinality({b \in 1..nb : \E n \in 1..ns : Demoted(G, cfg.bases[b], seq, n)}),
+           !.demoted = @ + Cardinality({b \in 1..nb : ~ReachCovers(G, cfg.bases[b], seq)
+                                                         /\ \E n \in 1..ns : Demoted(G, cfg.bases[b], seq, n)}),
            !.devruns = @ + Cardinality({b \in 1..nb : out[b].d # {}}),
            !.conform = @ + Cardinality({b \in 1..nb : out[b].conform}),
            !.shiftpairs = @ + Cardinality(pairs),
